@@ -170,11 +170,14 @@ mpf_get_str (char *dbuf, mp_exp_t *exp, int base, size_t n_digits, mpf_srcptr u)
 
   /* Allocate temporary digit space.  We can't put digits directly in the user
      area, since we generate more digits than requested.  (We allocate
-     2 * GMP_LIMB_BITS extra bytes because of the digit block nature of the
-     conversion.)  */
-  tstr = (unsigned char *) TMP_ALLOC (n_digits + 2 * GMP_LIMB_BITS + 3);
+     3 * GMP_LIMB_BITS extra bytes because of the digit block nature of the
+     conversion: up to three limbs of guard digits, see n_limbs_needed.)  */
+  tstr = (unsigned char *) TMP_ALLOC (n_digits + 3 * GMP_LIMB_BITS + 3);
 
-  n_limbs_needed = 2 + ((mp_size_t) (n_digits / mp_bases[base].chars_per_bit_exactly)) / GMP_NUMB_BITS;
+  /* Three guard limbs: the top limb of the operand and of the power of the
+     base may each hold a single bit, and with two guard limbs the digit
+     string could then be more than one unit off in its last place.  */
+  n_limbs_needed = 3 + ((mp_size_t) (n_digits / mp_bases[base].chars_per_bit_exactly)) / GMP_NUMB_BITS;
 
   if (ue <= n_limbs_needed)
     {
